@@ -127,10 +127,23 @@ FuseFirst(q) ==
 Fusions(q) == LET f == FuseFirst(q) IN IF f[1] THEN {f[2]} ELSE {}
 
 ----------------------------------------------------------------------------
+(* MetaData attached part-way along the top-level chain: ds.Where(f).MetaData(md).Where(g).
+   Meta is transparent for Denote/TypeOf; the spine is the chain of first arguments from the
+   root down to the dataset.                                                                 *)
+OnSpine(q) == q.k \in {"Select", "SelectMany", "Where", "Root"}
+RECURSIVE SpineLen(_)
+SpineLen(q) == IF OnSpine(q) THEN 1 + SpineLen(q.ch[1]) ELSE 0
+RECURSIVE MetaAt(_, _)
+MetaAt(q, depth) ==
+  IF depth = 0 THEN [k |-> "Meta", a |-> "", b |-> "", n |-> 0, d |-> 1, ch |-> <<q>>]
+  ELSE [q EXCEPT !.ch = <<MetaAt(q.ch[1], depth - 1)>> \o [i \in 1..(Len(q.ch) - 1) |-> q.ch[i + 1]]]
+MidMeta(q) == {MetaAt(q, dd) : dd \in 1..(SpineLen(q) - 1)}
+
 SurfaceVariants == {"qastle", "md_outer", "call_style"}
 
 VariantRecs(q) == {[how |-> "rename", q |-> r] : r \in Renamings(q)}
                   \cup {[how |-> "fuse", q |-> r] : r \in Fusions(q)}
+                  \cup {[how |-> "md_mid", q |-> r] : r \in MidMeta(q)}
                   \cup {[how |-> s, q |-> q] : s \in SurfaceVariants}
 
 ExportVariants == Complete =>
